@@ -186,6 +186,44 @@ func uiPart(r *ev.Report) {
 				r.Violation("typing:"+c.History+":panic", map[string]any{"case": c, "msg": d.Panic})
 				return
 			}
+			// (4) the viewer opened for number 1 fails (exits non-zero) after the digits of k have
+			// been typed and before Enter: the typed number must survive that
+			if !heldBroken {
+				c.History = "viewer-fails-while-typing"
+				os.Remove(dump)
+				os.Remove(hold)
+				os.Setenv("VDUMP_HOLD", hold)
+				os.Setenv("VDUMP_EXIT", "1")
+				d.KeysNoSettle("1\r")
+				if first := waitRecords(dump, 1); len(first) == 1 {
+					d.KeysNoSettle(fmt.Sprint(k))
+					os.WriteFile(hold, nil, 0o644) // the viewer ends now, with a failure
+					d.Settle()
+					os.Unsetenv("VDUMP_HOLD")
+					os.Unsetenv("VDUMP_EXIT")
+					os.Remove(hold)
+					d.Keys("\r")
+					recs := readDump(dump)
+					if len(recs) >= 1 {
+						recs = recs[1:]
+					}
+					expect(c, recs, k)
+					r.Eval(1)
+				} else {
+					heldBroken = true
+					r.Violation("typing:"+c.History+":nothing-opened", map[string]any{"case": c, "msg": "the first viewer never started"})
+				}
+				os.Unsetenv("VDUMP_HOLD")
+				os.Unsetenv("VDUMP_EXIT")
+				d.Settle()
+				if snap, _ := d.Snapshot(); snap.Mode != 1 {
+					d.Key(27)
+				}
+				if d.Panic != "" {
+					r.Violation("typing:"+c.History+":panic", map[string]any{"case": c, "msg": d.Panic})
+					return
+				}
+			}
 		}
 	}
 	r.Extra["ui_typing_documents"] = len(docs)
